@@ -70,6 +70,15 @@ fn spec(name: &str) -> Spec {
         "L6" => Spec { prefill: (1..=cap).collect(), threads: vec![vec![1], vec![100]] },
         // two threads, two different new sizes each, at capacity: double eviction
         "L7" => Spec { prefill: (1..=cap).collect(), threads: vec![vec![100, 2], vec![101, 1]] },
+        // three threads, same LARGE size (at and above the sparse-matrix threshold of 250 symbols the plan is
+        // generated on the other matrix back-end; any size-dependent path in the cache is on this side)
+        "L8" => Spec { prefill: vec![], threads: vec![vec![257], vec![257], vec![257]] },
+        // two large sizes in flight at once, one of them requested twice
+        "L9" => Spec { prefill: vec![], threads: vec![vec![257], vec![300], vec![257]] },
+        // four threads, two small sizes, crossing requests
+        "L10" => Spec { prefill: vec![], threads: vec![vec![10], vec![12], vec![10], vec![12]] },
+        // large and small mixed at capacity-1: eviction races with a slow large generation
+        "L11" => Spec { prefill: (1..cap).collect(), threads: vec![vec![257], vec![100], vec![257]] },
         _ => panic!("unknown model {}", name),
     }
 }
